@@ -209,6 +209,62 @@ async fn confirm_pools(r: &Report, desc: &Desc, layout: &Layout, cluster: &MockC
     }
 }
 
+/// Mock side of "where do the connections come from": every pool connection leaves from the configured local address (if
+/// one is configured), and every connection accepted on the shard-aware port has a source port inside the configured
+/// shard-aware local port range that is congruent to the shard the connection then serves (ScyllaDB's rule; in the NAT
+/// clusters: the shard the map assigns to that port).
+fn check_ports(r: &Report, desc: &Desc, layout: &Layout, cluster: &MockCluster, session_log_start: u64, pool: &[ConnInfo], local_ip: Option<std::net::IpAddr>, note: &str) {
+    let (lo, hi) = desc.port_range();
+    let case = json!({"desc": desc.to_json(), "only": {"phase": "ports", "ks": "s1", "stmt": "insert", "policy": "default", "key": 0, "generation": 0}});
+    // A connection opened through the shard-aware port is opened FOR one missing shard, from a port drawn for that shard.
+    // If the port is congruent to it the server binds the connection to that shard and the pool keeps it; a connection
+    // the client throws away again was bound to a shard that was not the missing one (in the NAT clusters the server's
+    // map is a permutation that keeps every connection useful, so the rule holds there too).
+    for e in cluster.log_since(session_log_start) {
+        if let mockcluster::LogKind::Closed { by } = &e.kind {
+            if !matches!(by, mockcluster::ClosedBy::Server(_)) && cluster.conn(e.conn).map(|c| c.shard_port).unwrap_or(false) {
+                r.violation(
+                    "ports:shard-aware-connection-discarded",
+                    &format!("{}{note}: the client opened a connection through the shard-aware port of node {} (from {:?}, bound to shard {:?}) and closed it again while filling the pool: its source port was not congruent to the shard it was opened for", desc.label(), e.node, cluster.conn(e.conn).map(|c| c.peer), e.shard),
+                    case.clone(),
+                );
+            }
+        }
+    }
+    for c in pool {
+        r.counters.add("pool_connections_checked", 1);
+        if r.property == "C11" {
+            r.eval(1);
+        }
+        if let Some(ip) = local_ip {
+            if c.peer.ip() != ip {
+                r.violation("ports:source-address", &format!("{}{note}: a pool connection to node {} comes from {} although local_ip_address is {ip}", desc.label(), c.node, c.peer), case.clone());
+            }
+        }
+        if !c.shard_port {
+            continue;
+        }
+        r.counters.add("shard_aware_port_connections_checked", 1);
+        let Some((nr, _)) = layout.nodes[c.node].shards else { continue };
+        let port = c.peer.port();
+        if port < lo || port > hi {
+            r.violation("ports:source-port-outside-the-configured-range", &format!("{}{note}: a connection accepted on the shard-aware port of node {} left from port {port}; shard_aware_local_port_range is {lo}..={hi}", desc.label(), c.node), case.clone());
+        }
+        let asked = port % nr;
+        let want = if desc.nat { (nr - asked) % nr } else { asked };
+        if c.shard != Some(want) {
+            machinery_error_ports(desc, &format!("mock bound port {port} to shard {:?}, expected {want}", c.shard));
+        }
+        // the driver opened this connection for one particular missing shard: with k connections per shard wanted and
+        // found, every shard is served by exactly k connections, so a port that is congruent to the served shard is one
+        // that was drawn for it (a kernel-chosen port lands on the right shard only by chance - and then outside the range)
+        r.nontrivial(1);
+    }
+}
+fn machinery_error_ports(desc: &Desc, msg: &str) -> ! {
+    vcore::machinery_error(&format!("C12 [{}]: {msg}", desc.label()))
+}
+
 struct Run<'a> {
     r: &'a Report,
     desc: &'a Desc,
@@ -224,6 +280,8 @@ struct Run<'a> {
     phase: String,
     phase_note: String,
     outcomes: BTreeSet<(usize, Option<u16>)>,
+    /// only the source-address / source-port sub-check (leg ports-e2e of C11): no requests
+    ports_only: bool,
 }
 
 impl Run<'_> {
@@ -375,6 +433,9 @@ impl Run<'_> {
     async fn sweep(&mut self, policies: &[Policy], ks_ok: &dyn Fn(&KsCfg, &Policy) -> bool, keys: &[CellKey], generation: usize, only: &Option<Only>, repeats: usize, evict: bool) -> u64 {
         let layout = self.layout.clone();
         let mut issued = 0u64;
+        if self.ports_only {
+            return 0;
+        }
         for (pi, policy) in policies.iter().enumerate() {
             if evict && pi == 1 && only.is_none() {
                 // history: every node forgets its prepared statements once; the first execution per node is answered
@@ -464,7 +525,10 @@ fn tablet_reply(ctx: &ReqCtx, layout: &Layout, world: &TabletWorld, answer: Resp
     Reply::Frame(Envelope::from(answer).with_payload(TABLETS_PAYLOAD_KEY, tablet_payload(tab.first_exclusive, tab.last, &reps)))
 }
 
-async fn run_cluster(r: &Report, desc: &Desc, only: Option<Only>) {
+async fn run_cluster(r: &Report, desc: &Desc, only: Option<Only>, ports_only: bool) {
+    let ports_only = ports_only || only.as_ref().map(|o| o.phase == "ports").unwrap_or(false);
+    // an address of this process's loopback block that no mock node listens on
+    let local_ip: Option<std::net::IpAddr> = desc.local_ip.then(|| mockcluster::alloc_ip().into());
     let layout = Arc::new(model::build_layout(desc));
     let (keys, stats) = model::find_cell_keys(&layout, desc.keys_per_cell, 1_000_000);
     r.counters.add("cells_total", stats.cells_total as u64);
@@ -557,7 +621,10 @@ async fn run_cluster(r: &Report, desc: &Desc, only: Option<Only>) {
                 continue;
             }
         }
-        if !run_session(r, desc, &layout, &cluster, &world, &keys, session_pref, &only, &mut outcomes).await {
+        if ports_only && session_pref.is_some() {
+            continue;
+        }
+        if !run_session(r, desc, &layout, &cluster, &world, &keys, session_pref, &only, &mut outcomes, ports_only, local_ip).await {
             cluster.shutdown().await;
             return;
         }
@@ -579,13 +646,21 @@ fn open_ids(cluster: &MockCluster) -> BTreeSet<u64> {
 /// One session against the cluster: wait for full pools, prepare, (learn tablets,) run every request, then the
 /// history phases. False = stop working on this cluster (a violation that makes the rest meaningless was recorded).
 #[allow(clippy::too_many_arguments)]
-async fn run_session(r: &Report, desc: &Desc, layout: &Arc<Layout>, cluster: &MockCluster, world: &Arc<TabletWorld>, keys: &[CellKey], session_pref: Option<String>, only: &Option<Only>, outcomes: &mut BTreeSet<(usize, Option<u16>)>) -> bool {
+async fn run_session(r: &Report, desc: &Desc, layout: &Arc<Layout>, cluster: &MockCluster, world: &Arc<TabletWorld>, keys: &[CellKey], session_pref: Option<String>, only: &Option<Only>, outcomes: &mut BTreeSet<(usize, Option<u16>)>, ports_only: bool, local_ip: Option<std::net::IpAddr>) -> bool {
     let cluster = cluster.clone();
+    let session_log_start = cluster.log_len();
     let nobody: BTreeSet<usize> = BTreeSet::new();
     let k = NonZeroUsize::new(desc.pool_n.max(1)).unwrap();
     let mut sb = SessionBuilder::new().known_node(cluster.contact_point(0)).pool_size(if desc.per_shard { PoolSize::PerShard(k) } else { PoolSize::PerHost(k) });
     if let Some(dc) = &session_pref {
         sb = sb.prefer_datacenter(dc.clone());
+    }
+    if let Some(ip) = local_ip {
+        sb = sb.local_ip_address(Some(ip));
+    }
+    if desc.narrow_ports {
+        let (lo, hi) = desc.port_range();
+        sb = sb.shard_aware_local_port_range(scylla::routing::ShardAwarePortRange::new(lo..=hi).unwrap_or_else(|e| vcore::machinery_error(&format!("port range: {e}"))));
     }
     let session = sb.build().await.unwrap_or_else(|e| machinery(&cluster, desc, &format!("session did not come up: {e}")));
     r.counters.add("sessions", 1);
@@ -593,6 +668,7 @@ async fn run_session(r: &Report, desc: &Desc, layout: &Arc<Layout>, cluster: &Mo
     let pool = cluster.wait_conns("every pool has its connections READY", DEADLINE, |cs| pools_full(layout, cs, &nobody)).await.unwrap_or_else(|e| machinery(&cluster, desc, &e));
     let pool_has: BTreeSet<(usize, Option<u16>)> = pool.iter().map(|c| (c.node, c.shard)).collect();
     confirm_pools(r, desc, layout, &cluster, &session, &pool).await;
+    check_ports(r, desc, layout, &cluster, session_log_start, &pool, local_ip, "");
     let conns_at_start = open_ids(&cluster);
     // the driver's view of the metadata the mock served (guards against a harness that misdrives the session)
     {
@@ -626,7 +702,7 @@ async fn run_session(r: &Report, desc: &Desc, layout: &Arc<Layout>, cluster: &Mo
     }
 
     let replaying = only.is_some();
-    let mut run = Run { r, desc, layout: layout.clone(), cluster: cluster.clone(), session, prepared, pool_has, down: BTreeSet::new(), serial: 0, replaying, phase: "main".into(), phase_note: String::new(), outcomes: BTreeSet::new() };
+    let mut run = Run { r, desc, layout: layout.clone(), cluster: cluster.clone(), session, prepared, pool_has, down: BTreeSet::new(), serial: 0, replaying, phase: "main".into(), phase_note: String::new(), outcomes: BTreeSet::new(), ports_only };
     let policies = match &session_pref {
         None => model::policies(layout),
         Some(dc) => model::session_policies(dc),
@@ -634,7 +710,7 @@ async fn run_session(r: &Report, desc: &Desc, layout: &Arc<Layout>, cluster: &Mo
     // session-level preference: one pass per request (the same code below the preference lookup was repeated above)
     let base_repeats = if session_pref.is_some() { 1 } else { desc.repeats.max(1) };
     let generations: usize = layout.tablet_maps.len().max(1);
-    if only.is_none() {
+    if only.is_none() && !ports_only {
         run.check_state_api(keys, 0, false);
     }
 
@@ -645,7 +721,7 @@ async fn run_session(r: &Report, desc: &Desc, layout: &Arc<Layout>, cluster: &Mo
             }
         }
         // ---- tablets: deliver the map of this generation through payloads, wait until the client lists it
-        if desc.tablets > 0 {
+        if desc.tablets > 0 && !ports_only {
             let tks = layout.keyspaces.iter().find(|k| k.tablet_based).unwrap().clone();
             let mut ps = run.prepared[&(TABLET_KS.to_string(), 0)].clone();
             ps.set_execution_profile_handle(Some(policy_handle(&Policy::Default)));
@@ -727,7 +803,7 @@ async fn run_session(r: &Report, desc: &Desc, layout: &Arc<Layout>, cluster: &Mo
         machinery(&cluster, desc, "the set of open connections changed while the requests ran");
     }
     let last_generation = generations - 1;
-    let wants_phase = |p: &str| only.as_ref().map(|o| o.phase.starts_with(p)).unwrap_or(true);
+    let wants_phase = |p: &str| only.as_ref().map(|o| o.phase.starts_with(p) || (o.phase == "ports" && p == "restart")).unwrap_or(true) && (!ports_only || p == "restart");
 
     // ---- history 1: a node "restarts" with other sharding parameters: same shard count but another msb_ignore, then
     // another shard count, then not sharded at all. All its pool connections are reset, the pool refills.
@@ -741,7 +817,7 @@ async fn run_session(r: &Report, desc: &Desc, layout: &Arc<Layout>, cluster: &Mo
         for (k, new_shards) in steps.into_iter().enumerate() {
             let step = k + 1;
             if let Some(o) = only {
-                if o.phase.as_str() < format!("restart{step}").as_str() {
+                if o.phase != "ports" && o.phase.as_str() < format!("restart{step}").as_str() {
                     break;
                 }
             }
@@ -758,6 +834,7 @@ async fn run_session(r: &Report, desc: &Desc, layout: &Arc<Layout>, cluster: &Mo
                 machinery(&cluster, desc, "a reset connection is still listed as open");
             }
             confirm_pools(r, desc, &cur, &cluster, &run.session, &pool).await;
+            check_ports(r, desc, &cur, &cluster, session_log_start, &pool, local_ip, &format!(" [after restart {step}]"));
             r.counters.add("restarts", 1);
             let conns_before = open_ids(&cluster);
             let (keys2, stats2) = model::find_cell_keys(&cur, desc.keys_per_cell, 1_000_000);
@@ -857,15 +934,17 @@ async fn run_session(r: &Report, desc: &Desc, layout: &Arc<Layout>, cluster: &Mo
     true
 }
 
-fn block_on_cluster(r: &Report, desc: &Desc, only: Option<Only>) {
+fn block_on_cluster(r: &Report, desc: &Desc, only: Option<Only>, ports_only: bool) {
     let rt = tokio::runtime::Builder::new_multi_thread().worker_threads(2).enable_all().build().unwrap_or_else(|e| vcore::machinery_error(&format!("tokio runtime: {e}")));
-    rt.block_on(run_cluster(r, desc, only));
+    rt.block_on(run_cluster(r, desc, only, ports_only));
     rt.shutdown_timeout(Duration::from_secs(5));
 }
 
 fn main() {
     vcore::quiet_panics();
-    let r = Report::new("C12", "e2e", "exploration", "E-MOCK");
+    // `--ports-only`: the source-address / source-port sub-check alone, reported under C11 (checks.d/C11+ports-e2e.json)
+    let ports_only = std::env::args().any(|a| a == "--ports-only");
+    let r = if ports_only { Report::new("C11", "ports-e2e", "exploration", "E-MOCK") } else { Report::new("C12", "e2e", "exploration", "E-MOCK") };
     if let Err(e) = cqlref::murmur3::self_test() {
         vcore::machinery_error(&format!("cqlref murmur3 self-test: {e}"));
     }
@@ -886,11 +965,11 @@ fn main() {
             key: o["key"].as_i64().unwrap_or(0) as i32,
             generation: o["generation"].as_u64().unwrap_or(0) as usize,
         };
-        block_on_cluster(&r, &desc, Some(only));
+        block_on_cluster(&r, &desc, Some(only), ports_only);
         r.finish_replay();
     }
     let thorough = r.tier().is_thorough();
-    let mut descs = model::enumerate(thorough);
+    let mut descs = if ports_only { model::port_config_clusters(thorough, false) } else { model::enumerate(thorough) };
     if let Some(f) = r.args.extra_value("--max-clusters") {
         descs.truncate(f.parse().unwrap_or(usize::MAX));
     }
@@ -903,10 +982,16 @@ fn main() {
     let total = descs.len();
     let jobs = r.args.jobs.clamp(1, 16);
     let r_ref = &r;
-    vcore::par::for_each(jobs, 1, descs.into_iter(), |d| block_on_cluster(r_ref, &d, None));
+    vcore::par::for_each(jobs, 1, descs.into_iter(), |d| block_on_cluster(r_ref, &d, None, ports_only));
 
     r.note("clusters_enumerated", json!(total));
-    r.set_rule("E-MOCK. Clusters: node counts 1..4 (thorough ..6) x DC splits {one DC, every two-DC split with the larger half first, three DCs [1,1,1] and [2,1,1] (thorough three more)} x shard patterns {unsharded, 1, 2, 3 shards, two mixes giving every node another sharder incl. msb_ignore 0, unsharded contact point among sharded nodes (thorough: 8 shards and three more mixes)} x pool {PerShard(1), PerHost(1); a few clusters with PerShard(2) and PerHost(3)} x tablets {off, on (all-sharded clusters)} x vnodes per node {1,2,3} (thorough ..4), tokens jittered around an equal division, owners shuffled; plus NAT clusters (3 shards, thorough also 8) where the server binds a shard-aware-port connection to another shard than the one asked for. Inside every cluster: a session without location preference and one session per DC preferred at session level (quick: in the clusters with 2 vnodes or <= 2 nodes); keyspaces Simple RF 1,2,3, NTS {dc1:1,dc2:1}, {dc1:2,dc2:1,dc3:1}, {dc2:2}, {dc1:0,dc2:1} (+ tablet keyspace), all with a table `t`, x statement kinds {plain and LWT-marked through execute_unpaged, a SELECT through execute_single_page or execute_iter (alternating by key)} x policies {default, prefer each DC with / without failover, prefer dc1/r2 with / without failover | session-level preference with / without failover} x one key (thorough two) per cell x 2 repeats, cell = (segment of the token space: ring interval / wrap halves / tablet boundary refinement) x sharder configuration x owning shard; cell emptiness and size computed from the reference shard function, every cell of >= 2^50 tokens must be hit; keys found by walking 0,1,2,.. with the reference Murmur3; once per session every node forgets its prepared statements (UNPREPARED + re-send). Histories after the normal phase of the preference-less session, by vnode count: (2 vnodes) the last sharded node restarts three times with other sharding parameters (same shard count but another msb_ignore; another shard count; not sharded), its pool connections are reset and refilled, cell keys recomputed; (1 vnode, >= 2 nodes) the last node is killed and, once the client reports it not connected, every request is re-run with `reachable` = the other nodes; (3 vnodes, >= 2 nodes) the last node is reported in another datacenter, refresh_metadata(), pools re-confirmed, every request re-run against the new placement. Per request: node and server-side shard of the connection of the first EXECUTE carrying the request's serial vs. the reference replica list (minus down nodes, narrowed to the preferred DC when it holds a reachable replica), shard_of(token) of that node when the pool holds a connection bound to it, the tablet's (node, shard) for the tablet table after the payload was delivered and the client lists it (three map generations: initial, every tablet migrated, the first two tablets merged into one), request_coordinator() (host id, shard, address) vs. the connection that served the answer; per session and key ClusterState::compute_token and get_token_endpoints vs. the reference. distinct_nontrivial = requests whose permitted first targets are a strict subset of the nodes.");
+    if ports_only {
+        r.set_rule("E-MOCK, sub-check of the C12 end-to-end leg run alone. A real Session against the mock cluster: layouts [1], [2], [2,1] x shard patterns {3 shards everywhere, 3/2/unsharded/1 mixed (thorough: 8 shards)} x PerShard(1) and PerShard(2) pools x {SessionBuilder::local_ip_address unset / set to an unused address of the mock's loopback block} x {shard_aware_local_port_range default 49152..=65535 / a 400-port custom window}; after the pools are full, and again after each of three restarts of a node with other sharding parameters (pool reset and refilled), on the mock's connection table: every pool connection comes from the configured local address; every connection accepted on the shard-aware port left from a port inside the configured range; no connection opened through the shard-aware port was thrown away again by the client (it is opened for one missing shard from a port drawn for it - a discarded one was bound to another shard, i.e. its port was not congruent to the shard it was opened for). evaluations = pool connections inspected; distinct_nontrivial = those accepted on the shard-aware port.");
+        r.set_exhaustive(r.counters.get("clusters") == total as u64);
+        r.assume("the mock binds a shard-aware-port connection to source port % shard count, as ScyllaDB does; which port of the range the driver draws is its thread RNG (membership oracle)");
+        r.finish();
+    }
+    r.set_rule("E-MOCK. Clusters: node counts 1..4 (thorough ..6) x DC splits {one DC, every two-DC split with the larger half first, three DCs [1,1,1] and [2,1,1] (thorough three more)} x shard patterns {unsharded, 1, 2, 3 shards, two mixes giving every node another sharder incl. msb_ignore 0, unsharded contact point among sharded nodes (thorough: 8 shards and three more mixes)} x pool {PerShard(1), PerHost(1); a few clusters with PerShard(2) and PerHost(3)} x tablets {off, on (all-sharded clusters)} x vnodes per node {1,2,3} (thorough ..4), tokens jittered around an equal division, owners shuffled; plus NAT clusters (3 shards, thorough also 8) where the server binds a shard-aware-port connection to another shard than the one asked for; plus port-configuration clusters {local_ip_address set / unset} x {default / narrow custom shard_aware_local_port_range} with PerShard(1|2) pools - at every pools-full point every pool connection must come from the configured address, every shard-aware-port connection from a port inside the configured range, and none opened through the shard-aware port may have been discarded by the client. Inside every cluster: a session without location preference and one session per DC preferred at session level (quick: in the clusters with 2 vnodes or <= 2 nodes); keyspaces Simple RF 1,2,3, NTS {dc1:1,dc2:1}, {dc1:2,dc2:1,dc3:1}, {dc2:2}, {dc1:0,dc2:1} (+ tablet keyspace), all with a table `t`, x statement kinds {plain and LWT-marked through execute_unpaged, a SELECT through execute_single_page or execute_iter (alternating by key)} x policies {default, prefer each DC with / without failover, prefer dc1/r2 with / without failover | session-level preference with / without failover} x one key (thorough two) per cell x 2 repeats, cell = (segment of the token space: ring interval / wrap halves / tablet boundary refinement) x sharder configuration x owning shard; cell emptiness and size computed from the reference shard function, every cell of >= 2^50 tokens must be hit; keys found by walking 0,1,2,.. with the reference Murmur3; once per session every node forgets its prepared statements (UNPREPARED + re-send). Histories after the normal phase of the preference-less session, by vnode count: (2 vnodes) the last sharded node restarts three times with other sharding parameters (same shard count but another msb_ignore; another shard count; not sharded), its pool connections are reset and refilled, cell keys recomputed; (1 vnode, >= 2 nodes) the last node is killed and, once the client reports it not connected, every request is re-run with `reachable` = the other nodes; (3 vnodes, >= 2 nodes) the last node is reported in another datacenter, refresh_metadata(), pools re-confirmed, every request re-run against the new placement. Per request: node and server-side shard of the connection of the first EXECUTE carrying the request's serial vs. the reference replica list (minus down nodes, narrowed to the preferred DC when it holds a reachable replica), shard_of(token) of that node when the pool holds a connection bound to it, the tablet's (node, shard) for the tablet table after the payload was delivered and the client lists it (three map generations: initial, every tablet migrated, the first two tablets merged into one), request_coordinator() (host id, shard, address) vs. the connection that served the answer; per session and key ClusterState::compute_token and get_token_endpoints vs. the reference. distinct_nontrivial = requests whose permitted first targets are a strict subset of the nodes.");
     let full = r.counters.get("cells_hit") == r.counters.get("cells_total") && r.counters.get("clusters") == total as u64;
     r.set_exhaustive(full);
     r.assume("outside the down phase all nodes are up and connected (checked: the set of open connections is the same before and after every phase); client-internal scheduling and the thread RNG that picks among replicas are not controlled: the oracle is membership in the reference set, valid for every pick");
